@@ -69,7 +69,7 @@ func mutatedFields(p *core.Program) map[*types.TypeName]map[string]mutInfo {
 		}
 		aliases := localAliases(info, fd)
 		for _, w := range collectWrites(info, fd.Body) {
-			for _, r := range rootsOf(info, w.target, aliases, 0) {
+			for _, r := range rootsOfWrite(info, w, aliases) {
 				if r.obj != recv || r.field == "" {
 					continue
 				}
@@ -106,7 +106,7 @@ func scanShared(c *core.Ctx) []ob {
 		_, ptrRecv := core.RecvNamed(info, cc.fd)
 		bad := false
 		for _, w := range collectWrites(info, cc.fd.Body) {
-			for _, r := range rootsOf(info, w.target, aliases, 0) {
+			for _, r := range rootsOfWrite(info, w, aliases) {
 				if recv == nil || r.obj != recv {
 					continue
 				}
